@@ -85,6 +85,7 @@ abbrev St := List Out
 
 def stepLine (st : St) : List String → St × String
   | ["munge", s] => (st, match dec s with | some s => enc (munge s) | none => "bad-op")
+  | ["strip", s] => (st, match dec s with | some s => enc (stripFormatting s) | none => "bad-op")
   | ["blen", s] => (st, match dec s with | some s => toString (blen s) | none => "bad-op")
   | ["nat", n] => (st, match n.toNat? with | some n => enc (natToStr n) ++ "\t" ++ enc (zfill2 n) | none => "bad-op")
   | ["split", size, w] =>
